@@ -35,7 +35,11 @@ class ASTWalker:
         if isinstance(node, Decorator):
             node = node.func
         elif isinstance(node, OverloadedFuncDef):
-            node = node.impl
+            if node.impl is None and node.is_property and node.items and isinstance(node.items[0], Decorator):
+                # A property with a setter has no implementation node, its getter (the first item) describes it
+                node = node.items[0].func
+            else:
+                node = node.impl
 
         # An overloaded definition without an implementation (e.g. a property with a setter) has nothing to visit
         if node is None:
